@@ -10,6 +10,7 @@ import Driver.Derived
 import Driver.Xen
 import Driver.Sys
 import Driver.Dump
+import Driver.Oom
 
 def main (args : List String) : IO UInt32 := do
   let stdin ← IO.getStdin
@@ -26,4 +27,5 @@ def main (args : List String) : IO UInt32 := do
   | ["xen"] => Driver.Xen.run stdin; return 0
   | ["sys"] => Driver.Sys.run stdin; return 0
   | ["dump"] => Driver.Dump.run stdin; return 0
+  | ["oom"] => Driver.Oom.run stdin; return 0
   | _ => IO.eprintln "usage: kdfdrv <stream>"; return 2
